@@ -226,7 +226,7 @@ fn git_faults(ctx: &Ctx, quick: bool) -> Stats {
     { let d = root.join("f_nocommits"); let _ = std::fs::create_dir_all(&d); gitx::git(&d, &["init", "-q", "-b", "main"], None); scenarios.push(("no-commits", d)); }
     let path = format!("{}:/usr/local/bin:/usr/bin:/bin", shim_dir.display());
     let modes = ["exit1", "exit128", "garbage", "empty", "kill", "silent1"];
-    let mut plans: Vec<(usize, &str, Vec<String>, Option<u32>, Option<u32>, &str)> = vec![];
+    let mut plans: Vec<(usize, &str, Vec<String>, Option<u32>, Option<u32>, &str, Vec<u8>)> = vec![];
     let mut st0 = Stats::default();
     let mut call_counts = vec![];
     for (si, (name, dir)) in scenarios.iter().enumerate() {
@@ -243,11 +243,17 @@ fn git_faults(ctx: &Ctx, quick: bool) -> Stats {
             // compare with the same run without the shim (the seam must be transparent)
             let plain = zv::run_bin(&args, None, &[], None);
             if plain.stdout != o.stdout || plain.status != o.status { machinery_error(&format!("git shim is not transparent for {name}/{sub}")); }
-            for k in 1..=n { for m in modes { plans.push((si, sub, args.clone(), Some(k), None, m)); } }
-            if !quick { for k in 1..=n { for j in (k + 1)..=n { for m in ["exit1", "garbage"] { plans.push((si, sub, args.clone(), Some(k), Some(j), m)); } } } }
+            for k in 1..=n { for m in modes { plans.push((si, sub, args.clone(), Some(k), None, m, plain.stdout.clone())); } }
+            if !quick { for k in 1..=n { for j in (k + 1)..=n { for m in ["exit1", "garbage"] { plans.push((si, sub, args.clone(), Some(k), Some(j), m, plain.stdout.clone())); } } } }
+            // the same fault points observed through the lossless object (tag hash / tag time / branch are not all in the default rendering)
+            if sub == "version" {
+                let zargs = a(&[sub, "-C", dir.to_str().unwrap(), "--output-format", "zerv"]);
+                let zplain = zv::run_bin(&zargs, None, &[], None);
+                for k in 1..=n { for m in ["exit1", "kill"] { plans.push((si, sub, zargs.clone(), Some(k), None, m, zplain.stdout.clone())); } }
+            }
         }
     }
-    let st = plans.par_iter().enumerate().map(|(pi, (si, sub, args, k, j, mode))| {
+    let st = plans.par_iter().enumerate().map(|(pi, (si, sub, args, k, j, mode, fault_free))| {
         let mut st = Stats::default();
         st.inc("fault_plans");
         let counter = root.join(format!("pc_{pi}"));
@@ -261,7 +267,14 @@ fn git_faults(ctx: &Ctx, quick: bool) -> Stats {
         if o.status == 0 {
             // a swallowed fault must still yield a well-formed version
             let line = o.stdout_str();
-            if zvharness::refmodel::malformed("semver", line.trim_end_matches('\n')).is_some() { ctx.violation("malformed_result_under_git_fault", format!("{label}{}", args.join(" ")), json!({"kind":"fault"}), format!("stdout {:?}", truncate(&line, 100))); }
+            let zerv_fmt = args.iter().any(|x| x == "zerv");
+            // a git sub-command that *fails* (non-zero status / killed) may make zerv fail, but a success must still be
+            // the requested result, i.e. what the fault-free run prints; a git that lies with status 0 is not judged this way
+            if matches!(*mode, "exit1" | "exit128" | "kill" | "silent1") {
+                st.inc("failing_git_but_zerv_succeeded");
+                if o.stdout != *fault_free { ctx.violation("result_differs_under_swallowed_git_failure", format!("{label}{}", args.join(" ")), json!({"kind":"fault","scenario":scenarios[*si].0,"args":args,"call":ks,"call2":js,"mode":mode}), format!("fault-free stdout {:?}, with the failing git call {:?}", truncate(&String::from_utf8_lossy(fault_free), 160), truncate(&line, 160))); }
+            }
+            if !zerv_fmt && zvharness::refmodel::malformed("semver", line.trim_end_matches('\n')).is_some() { ctx.violation("malformed_result_under_git_fault", format!("{label}{}", args.join(" ")), json!({"kind":"fault"}), format!("stdout {:?}", truncate(&line, 100))); }
         }
         let _ = std::fs::remove_file(&counter);
         st
